@@ -1,2 +1,53 @@
-(** C11 - placeholder while the proofs are being written. *)
-From E57 Require Import Base.Prelude.
+(** C11 - Page layer: file payload always equals the logical stream written.
+    Statements only; every proof is an [exact] of a lemma proved in Proofs/. *)
+From E57 Require Import Base.Prelude Model.Crc Model.Device Model.PagedWriter Model.PagedReader
+  Spec.PageSpec Spec.PageReadSpec Proofs.PagedWriterProofs Proofs.PagedReaderProofs.
+
+(** The writer state produced by [PagedWriter::new] on an empty device. *)
+Theorem C11_writer_new : pw_new (dev_init [] None) = (pw_dev pw0, Ok pw0).
+Proof. exact pw_new_fresh. Qed.
+
+(** For every history over write_all / physical_seek (accepted or rejected) /
+    flush / align / physical_position / physical_size: the results (including
+    every reported position and size) are those of the logical-stream
+    specification, a flush succeeds, and at that flush point the device holds
+    exactly [paginate] of the logical stream written. *)
+Theorem C11_writer : forall ops : list pw_op,
+  snd (pw_run ops pw0) = snd (ls_run ops ls_init) /\
+  snd (pw_flush (fst (pw_run ops pw0))) = Ok tt /\
+  d_bytes (pw_dev (fst (pw_flush (fst (pw_run ops pw0))))) = paginate (ls_data (fst (ls_run ops ls_init))).
+Proof. exact pw_run_refines. Qed.
+
+(** [paginate]: every page carries a valid checksum, and the bytes outside the
+    checksums are the logical stream zero-filled to a whole page. *)
+Theorem C11_pages_sealed : forall data, all_pages_valid (paginate data) = true.
+Proof. exact paginate_all_valid. Qed.
+
+Theorem C11_payload_is_stream : forall data, strip_crc (paginate data) = pad_payload data.
+Proof. exact strip_paginate. Qed.
+
+Theorem C11_image_length : forall data, len (paginate data) = pages_for (len data) * 1024.
+Proof. exact paginate_length. Qed.
+
+(** Reading such a file through the page layer returns the logical stream,
+    for every history of physical seeks, reads of any size and alignments
+    (failed operations included). *)
+Theorem C11_reader : forall (log : list N) (d1 : dev) (s0 : pr) (ops : list pr_op),
+  log <> [] -> len log mod 1020 = 0 ->
+  pr_new 1024 (dev_init (paginate log) None) = (d1, Ok s0) ->
+  snd (pr_run ops s0) = lr_run log ops 0.
+Proof. exact pr_run_logical. Qed.
+
+(** Non-vacuity: a concrete history with a rejected seek, a seek back, a patch
+    and a page-crossing write, evaluated. *)
+Example C11_example :
+  let ops := [PwWrite (repeat 7 1000); PwSeek 5000; PwSeek 4; PwWrite [1; 2; 3]; PwSeek 1000; PwWrite (repeat 9 50); PwAlign; PwPosition; PwSize] in
+  snd (pw_run ops pw0) = [Ok 0; Err EInvalid; Ok 0; Ok 0; Ok 0; Ok 0; Ok 0; Ok 1056; Ok 2048].
+Proof. vm_compute. reflexivity. Qed.
+
+Print Assumptions C11_writer_new.
+Print Assumptions C11_writer.
+Print Assumptions C11_pages_sealed.
+Print Assumptions C11_payload_is_stream.
+Print Assumptions C11_image_length.
+Print Assumptions C11_reader.
